@@ -75,11 +75,11 @@ theorem wls_split : "wrong last sequence: ".toList = "wrong last sequence".toLis
 theorem lower_wls : lower "wrong last sequence".toList = "wrong last sequence".toList := by decide
 
 /-- A `ValidationError` (what the constructor returns for a bad configuration) is permanent. -/
-theorem validation_error_permanent (f v r : List Char) : isPermanent (some (.validation0 f v r)) = true := by
+theorem validation_error_permanent (f r : List Char) (v : Option (List Char)) : isPermanent (some (.validation0 f v r)) = true := by
   have hm : matchesCI (Err.text (.validation0 f v r)) "invalid" = true := by
     have hs : kInvalidCfg = "invalid".toList ++ " configuration: field ".toList := by decide
     have : Err.text (.validation0 f v r) =
-        [] ++ ("invalid".toList ++ (" configuration: field ".toList ++ (f ++ (optPart kEq v ++ optPart kColon r)))) := by
+        [] ++ ("invalid".toList ++ (" configuration: field ".toList ++ (f ++ (optVal v ++ optPart kColon r)))) := by
       simp only [Err.text, hs, List.append_assoc, List.nil_append]
     unfold matchesCI
     rw [this, lower_append, lower_append, lower_invalid]
